@@ -154,6 +154,7 @@ class AcctSim(object):
         self.accrual_started = False
         self.tainted = False
         self.pos_scale = [0.0] * len(self.specs)
+        self.nlv_obs = []
 
     # -- helpers --------------------------------------------------------
     def probe(self, name, n=1):
@@ -294,6 +295,7 @@ class AcctSim(object):
                 if abs(ctx.nlv - nlv) > L.tol():
                     self.violate("context", "{}: context().nlv {} != NLV {}".format(tag, ctx.nlv, nlv), kind="context_nlv")
         self.last_nlv = m
+        self.nlv_obs.append((self.k, tag, nlv))
         return nlv
 
     def classify_nlv_error(self, err, after_trade):
@@ -871,7 +873,45 @@ def execute(scenario, prop):
     seed = scenario.get("prng", 0)
     with core.sim_context(prng_seed=seed):
         sim = AcctSim(scenario, prop)
-        try:
-            return sim.run()
-        except core.HarnessError:
-            raise
+        out = sim.run()
+        if scenario.get("twin") is not None and not out["violations"]:
+            twin_check(scenario, prop, sim, out)
+        return out
+
+
+def twin_check(scenario, prop, sim, out):
+    """C01, model-free: the same script on an account that differs only in that
+    one contract is spot-like instead of margined (or vice versa), with no
+    interest: the NLV paths must coincide - 'the same amount for a future as for
+    a spot asset quoted at the same prices'."""
+    import copy
+    i = scenario["twin"]
+    sc2 = copy.deepcopy(scenario)
+    spec = sc2["contracts"][i]
+    mult = world.contract_params(spec)[0]
+    if spec["kind"] in ("margined", "future"):
+        sc2["contracts"][i] = {"name": spec["name"], "kind": "spot", "mult": mult}
+        flavour = "margined_vs_spot"
+    else:
+        sc2["contracts"][i] = {"name": spec["name"], "kind": "margined", "mult": mult, "mreq": scenario.get("twin_mreq", 0.25)}
+        flavour = "spot_vs_margined"
+    sc2["twin"] = None
+    sim2 = AcctSim(sc2, prop)
+    out2 = sim2.run()
+    if out2["violations"]:
+        out["violations"] = out2["violations"]
+        return
+    a = {(k, tag): v for k, tag, v in sim.nlv_obs}
+    b = {(k, tag): v for k, tag, v in sim2.nlv_obs}
+    tol = max(sim.L.tol(), sim2.L.tol()) * 2
+    n = 0
+    for key in sorted(a, key=lambda x: (x[0], x[1])):
+        if key in b:
+            n += 1
+            if abs(a[key] - b[key]) > tol:
+                out["violations"] = [{"clause": "twin_spot_vs_margined", "sig": {"kind": flavour}, "op": key[0],
+                                      "msg": "{} at op {}: NLV {} but the twin account in which {} is {} has NLV {}".format(
+                                          key[1], key[0], a[key], spec["name"], sc2["contracts"][i]["kind"], b[key])}]
+                return
+    if n:
+        out["probes"]["twin_compared"] = out["probes"].get("twin_compared", 0) + 1
